@@ -65,6 +65,11 @@ impl Explored {
     pub fn failure_free_terminals(&self) -> Vec<(&Terminal, &Vec<Ev>)> {
         self.terminals.iter().filter(|(t, _)| !t.aborted && !t.any_failed).collect()
     }
+    /// terminals of schedules in which the driver injected no fault: a failure the engine declares by
+    /// itself (EphemeralChangedOutput) in some schedules only is an outcome that depends on the schedule
+    pub fn driver_fault_free_terminals(&self) -> Vec<(&Terminal, &Vec<Ev>)> {
+        self.terminals.iter().filter(|(t, _)| !t.driver_fault).collect()
+    }
 }
 
 pub struct MachineryError(pub String);
@@ -187,7 +192,7 @@ pub fn explore_with(cfg: &Rc<Cfg>, refr: &Rc<Reference>, opts: &Opts) -> Result<
         let mut c14: Option<Found> = None;
         let mut any_ff = false;
         {
-            let ff: Vec<(&Terminal, &Vec<Ev>)> = out.failure_free_terminals();
+            let ff: Vec<(&Terminal, &Vec<Ev>)> = out.driver_fault_free_terminals();
             any_ff = !ff.is_empty();
             let mut distinct: BTreeMap<(&Vec<Disp>, &Hist), &Vec<Ev>> = BTreeMap::new();
             for (t, e) in ff.iter() {
